@@ -260,7 +260,14 @@ func checkC04(c *Ctx, r *Report) {
 		}
 	}
 	for _, fn := range c.SrcFuncs() {
-		if len(CallsTo(fn, af, false)) == 0 {
+		// functions that have a field's info at hand: they call accessField or are handed a fieldInfo
+		hasInfo := len(CallsTo(fn, af, false)) > 0
+		for _, p := range fn.Params {
+			if isNamed(p.Type(), modPath, "fieldInfo") {
+				hasInfo = true
+			}
+		}
+		if !hasInfo {
 			continue
 		}
 		name := c.FnName(fn)
@@ -285,6 +292,12 @@ func checkC04(c *Ctx, r *Report) {
 				for _, s := range Sources(ci.Common().Args[2]) {
 					if p, ok := AccessPath(s); ok && strings.HasSuffix(p, ".validatorTags") {
 						good = true
+					}
+					// read back from a local fieldOptions literal whose validators were taken from the info
+					for _, s2 := range Sources(resolveLocalField(s)) {
+						if p, ok := AccessPath(s2); ok && strings.HasSuffix(p, ".validatorTags") {
+							good = true
+						}
 					}
 				}
 				r.Check(good, "R04d", name, "validators of recursive validation", c.Pos(ci.Pos()), "taken from accessField's fieldInfo", "a struct field is re-validated without the validators of its struct tag")
